@@ -340,6 +340,12 @@ class Run:
             data = faults.apply_outer(data, item["outer"], rep.label)
             for op in item["outer"]:
                 sim.count("fault.outer." + op["op"])
+        if len(data) > faults.MAX_DGRAM and rep.label.get("wf") is True:
+            # larger than the client's receive buffer at the pinned commit: the kernel may cut it
+            # (or not, after a refactor that enlarges the buffer) - no prediction is made
+            rep.label["wf"] = None
+            rep.label["why"] = "larger-than-receive-buffer"
+            sim.count("probe.reply-larger-than-receive-buffer")
         n = item.get("copies", 1)
         if n > 1:
             sim.count("fault.duplicate")
